@@ -2,7 +2,7 @@
 """Run the registered checks against the seeded changes kept under /verif/seeded/<id>/.
 For each: git -C /repo apply patch.diff; bin/check <property> (quick, then thorough if quick stays green);
 git -C /repo checkout -- .   Results go to /verif/seeded/<id>/result.json and a table is printed.
-Usage: seeded_eval.py [--also P1,P2] [id ...]"""
+Usage: seeded_eval.py [--also P1,P2] [id ...]      (SEED_TIERS=quick limits the tiers run)"""
 import json, os, subprocess, sys, time
 
 VERIF = os.path.dirname(os.path.dirname(os.path.abspath(__file__)))
@@ -27,7 +27,7 @@ def evaluate(sid, also):
     res = {'id': sid, 'property': pid, 'applied': True, 'checks': {}}
     try:
         for p in [pid] + [a for a in also if a != pid]:
-            for tier in ('quick', 'thorough'):
+            for tier in os.environ.get('SEED_TIERS', 'quick,thorough').split(','):
                 t0 = time.time()
                 rc, out = run([os.path.join(VERIF, 'bin', 'check'), p, '--tier', tier])
                 viol = [l for l in out.splitlines() if l.startswith('VIOLATION')]
